@@ -423,3 +423,34 @@ Proof.
   exact (powershell_script_structure b tb1 tb2 s1 s2 (build_bins_built _ _ Hb) Hp G1 G2).
 Qed.
 End UpLex.
+
+(** non-vacuity: the built example tree is in the class, and two text assignments with quotes (straight and
+    curly), newlines and different emptiness both produce a script *)
+Definition ex_texts2 : ttree :=
+  mkTt None false [] [mkTt (Some []) false [mkAt (Some [39; 10; 8216; 8217; 39; 36; 40]) false] []].
+Example powershell_structure_nonvacuous :
+  exists s1 s2, build (set_bin_name ex_tree (lit "p")) = Some ex_built /\ cmd_plain ps_plain ex_built = true /\
+    generate_powershell ascii_upper ex_tree ex_texts (lit "p") = Some s1 /\
+    generate_powershell ascii_upper ex_tree ex_texts2 (lit "p") = Some s2 /\ s1 <> s2.
+Proof.
+  eexists. eexists. split; [exact ex_built_eq|]. split; [vm_compute; reflexivity|].
+  split; [vm_compute; reflexivity|]. split; [vm_compute; reflexivity|]. discriminate.
+Qed.
+
+(** the class is sharp: names are written into the script unescaped; a quote in a subcommand name makes the
+    key of its block an odd number of quotes, after which the about texts of ITS subcommands are read
+    outside a literal and change the skeleton *)
+Definition quote_tree : cmd :=
+  mkCmd (lit "p") [] [] [mkCmd [120; 39] [] [] [cmd_new [121]] None false false sets0 sets0] None false false
+        (mkSets true true true false) (mkSets true true true false).
+Lemma powershell_quote_in_name_refuted :
+  exists c bin t1 t2 s1 s2,
+    generate_powershell ascii_upper c t1 bin = Some s1 /\ generate_powershell ascii_upper c t2 bin = Some s2 /\
+    skeleton (events ps_step PB s1) <> skeleton (events ps_step PB s2).
+Proof.
+  exists quote_tree, (lit "p"),
+         (mkTt None false [] [mkTt (Some [113]) false [] [mkTt (Some (lit "a b")) false [] []]]),
+         (mkTt None false [] [mkTt (Some [113]) false [] [mkTt (Some (lit "ab")) false [] []]]).
+  eexists. eexists. split; [vm_compute; reflexivity|]. split; [vm_compute; reflexivity|].
+  vm_compute. discriminate.
+Qed.
